@@ -261,6 +261,14 @@ func (k *c06) flush() {
 
 // violate: the case is only built for the first report of a (rule, class) per process.
 func (k *c06) violate(rule, class string, cas func() any, expected, observed string) {
+	// Behaviours that MQTT forbids but that the property statement does not mention
+	// (it asks for totality, bounded reading/allocation, round trips, sizes, and topic
+	// name/filter validity) are counted and noted, never reported as violations.
+	if rule == "remaining-length-at-most-4-bytes" || (rule == "no-packet-from-incomplete-input" && strings.HasPrefix(class, "eof-inside-fixed-header")) ||
+		(rule == "rejects-forbidden" && !strings.HasPrefix(class, "invalid-topic-filter-accepted") && !strings.HasPrefix(class, "publish-topic-wildcard-accepted")) {
+		k.c.Count("beyond_statement:"+rule+"|"+class, 1)
+		return
+	}
 	key := rule + "|" + class
 	if k.seen[key] {
 		k.c.Violate(rule, class, nil, "", "")
